@@ -54,6 +54,13 @@ var mapRanges = map[string]map[string]bool{}
 // lock held by a parked hand yields to the simulator instead of blocking
 var lockSites = map[string]map[string]string{}
 var lockRewrites int
+
+// unlockSites[dir][file:line:col] = "stmt" | "defer" for x.Unlock() / x.RUnlock()
+// statements on the same kind of value: the copy tells the simulator that a
+// lock has just been released (the statements that follow are where a result
+// computed under the lock is still being used)
+var unlockSites = map[string]map[string]string{}
+var unlockMarks int
 var poolRewrites int
 var typeImporter types.Importer
 var typeFset = token.NewFileSet()
@@ -116,6 +123,39 @@ func typeCheck(src, dir string) map[string]bool {
 				})
 			}
 			lockSites[dir] = locks
+			unl := map[string]string{}
+			note := func(call *ast.CallExpr, pos token.Pos, kind string) {
+				if call == nil || len(call.Args) != 0 {
+					return
+				}
+				sel, ok := call.Fun.(*ast.SelectorExpr)
+				if !ok || (sel.Sel.Name != "Unlock" && sel.Sel.Name != "RUnlock") {
+					return
+				}
+				tv, ok := info.Types[sel.X]
+				if !ok || tv.Type == nil {
+					return
+				}
+				obj, _, _ := types.LookupFieldOrMethod(tv.Type, true, tpkg, "TryLock")
+				if fn, ok := obj.(*types.Func); ok && fn != nil {
+					p := typeFset.Position(pos)
+					unl[fmt.Sprintf("%s:%d:%d", filepath.Base(p.Filename), p.Line, p.Column)] = kind
+				}
+			}
+			for _, f := range files {
+				ast.Inspect(f, func(n ast.Node) bool {
+					switch x := n.(type) {
+					case *ast.ExprStmt:
+						if c, ok := x.X.(*ast.CallExpr); ok {
+							note(c, x.Pos(), "stmt")
+						}
+					case *ast.DeferStmt:
+						note(x.Call, x.Pos(), "defer")
+					}
+					return true
+				})
+			}
+			unlockSites[dir] = unl
 		}
 		if err != nil {
 			fmt.Fprintf(os.Stderr, "yieldgen: %s: type check: %v (map iteration left as it is)\n", dir, err)
@@ -199,7 +239,7 @@ func main() {
 			if mapRanges[dir] == nil {
 				mapRanges[dir] = typeCheck(src, dir)
 			}
-			nb, n, err := instrument(rel, b, mapRanges[dir], lockSites[dir])
+			nb, n, err := instrument(rel, b, mapRanges[dir], lockSites[dir], unlockSites[dir])
 			if err != nil {
 				return fmt.Errorf("%s: %v", rel, err)
 			}
@@ -217,6 +257,7 @@ func main() {
 	sb.WriteString("// Code generated by yieldgen. DO NOT EDIT.\n\npackage verifyield\n\nimport (\n\t\"fmt\"\n\t\"reflect\"\n\t\"runtime\"\n\t\"sort\"\n\t\"sync\"\n)\n\n")
 	sb.WriteString("// H is the simulator's scheduling hook (nil: scheduling points do nothing).\nvar H func(fid int)\n\n")
 	sb.WriteString("// B is called by a hand that cannot take a lock at the moment (nil: let other goroutines run).\nvar B func()\n\n// Blocked is one failed attempt to take a lock.\nfunc Blocked() {\n\tif B != nil {\n\t\tB()\n\t\treturn\n\t}\n\truntime.Gosched()\n}\n\n")
+	sb.WriteString("// U is called right after a lock has been released (nil: nothing).\nvar U func()\n\n// Unlocked announces the release of a lock.\nfunc Unlocked() {\n\tif U != nil {\n\t\tU()\n\t}\n}\n\n")
 	sb.WriteString(keysHelper)
 	sb.WriteString(poolHelper)
 	sb.WriteString("// Y is a scheduling point.\nfunc Y(fid int) {\n\tif H != nil {\n\t\tH(fid)\n\t}\n}\n\n")
@@ -237,7 +278,7 @@ func main() {
 	if err := os.WriteFile(filepath.Join(dst, "verifyield", "detrand", "detrand.go"), []byte(detrandSrc), 0o644); err != nil {
 		fail("%v", err)
 	}
-	fmt.Printf("yieldgen: %d files, %d functions, %d scheduling points, %d map iterations put in key order, %d lock acquisitions made visible, %d sync.Pool uses made deterministic\n", files, len(funcNames), points, rangeSites, lockRewrites, poolRewrites)
+	fmt.Printf("yieldgen: %d files, %d functions, %d scheduling points, %d map iterations put in key order, %d lock acquisitions made visible, %d sync.Pool uses made deterministic, %d lock releases announced\n", files, len(funcNames), points, rangeSites, lockRewrites, poolRewrites, unlockMarks)
 }
 
 func copyFile(a, b string) error {
@@ -386,7 +427,7 @@ func less(a, b interface{}) bool {
 
 `
 
-func instrument(rel string, src []byte, maps map[string]bool, locks map[string]string) ([]byte, int, error) {
+func instrument(rel string, src []byte, maps map[string]bool, locks map[string]string, unlocks map[string]string) ([]byte, int, error) {
 	fset := token.NewFileSet()
 	f, err := parser.ParseFile(fset, rel, src, parser.ParseComments)
 	if err != nil {
@@ -471,6 +512,29 @@ func instrument(rel string, src []byte, maps map[string]bool, locks map[string]s
 		recv := string(src[off(sel.X.Pos()):off(sel.X.End())])
 		edits = append(edits, edit{off(es.Pos()), off(es.End()) - off(es.Pos()), fmt.Sprintf("for !%s.%s() { verifyield.Blocked() }", recv, try)})
 		lockRewrites++
+		return true
+	})
+	// releases of a lock are announced to the simulator
+	ast.Inspect(f, func(n ast.Node) bool {
+		var pos, end token.Pos
+		switch x := n.(type) {
+		case *ast.ExprStmt:
+			pos, end = x.Pos(), x.End()
+		case *ast.DeferStmt:
+			pos, end = x.Pos(), x.End()
+		default:
+			return true
+		}
+		p := fset.Position(pos)
+		switch unlocks[fmt.Sprintf("%s:%d:%d", filepath.Base(rel), p.Line, p.Column)] {
+		case "stmt":
+			edits = append(edits, edit{off(end), 0, "; verifyield.Unlocked()"})
+			unlockMarks++
+		case "defer":
+			// deferred calls run last-in-first-out: this one runs after the unlock
+			edits = append(edits, edit{off(pos), 0, "defer verifyield.Unlocked(); "})
+			unlockMarks++
+		}
 		return true
 	})
 	// sync.Pool hands out per-processor objects and forgets them at garbage
@@ -583,8 +647,8 @@ func rank(e edit) int {
 	switch {
 	case e.del > 0:
 		return 3 // the rewritten loop header (at the "for")
-	case strings.HasPrefix(e.text, "{ vym"):
-		return 2 // block opener, directly before the loop
+	case strings.HasPrefix(e.text, "{ vym"), strings.HasPrefix(e.text, "defer verifyield.Unlocked()"):
+		return 2 // block opener, directly before the loop; announcement directly before the deferred unlock
 	case strings.HasPrefix(e.text, "verifyield.Y("):
 		return 1 // scheduling point before the block opener
 	}
